@@ -334,7 +334,7 @@ impl Property for C04 {
         (wire_gen::config_strategy(false), prop_oneof![3 => Just(Drain::Answering), 1 => Just(Drain::Silent)])
             .prop_flat_map(move |(cfg, drain)| {
                 let np = cfg.n_peers;
-                (Just(cfg), proptest::collection::vec(wire_gen::op_strategy(np, wire_gen::Mix::Faulty), 1..n), Just(drain))
+                (Just(cfg), wire_gen::ops_strategy(np, wire_gen::Mix::Faulty, n), Just(drain))
             })
             .prop_map(|(cfg, ops, drain)| Case { cfg, ops, drain })
             .boxed()
@@ -346,7 +346,7 @@ impl Property for C04 {
         rep
     }
     fn rule() -> String {
-        "schedules (<=40 quick / <=120 thorough ops) over 2..4 real handlers (request_retries 0..3, request timeout 1 s virtual): requests of all kinds submitted at any node at arbitrary points (record-less contacts included), datagrams delivered in any order / dropped / duplicated / delayed across timeouts, who-are-you queries and requests answered immediately, late or never, peers restarted; each schedule ends with a drain (answering or silent network; time advanced by 2 x (retries+2) timeouts). Ledger per request id: at most one failure, at most k responses (k = NODES total), nothing after the terminal event; after the drain exactly one terminal outcome and no external request left in the handler; per session key a request is transmitted at most 1+retries times (datagrams decrypted with keys from probe snapshots); a Timeout is reported only if some request to that peer was outstanding for a full timeout without its answer(s) having been delivered. Non-trivial = >=2 unfinished requests from one node to one peer while a fault (drop, duplicate, restart, late answer, challenge during a live session) occurred.".into()
+        "schedules (<=40 quick / <=120 thorough ops) over 2..4 real handlers (request_retries 0..3, request timeout 1 s virtual): requests of all kinds submitted at any node at arbitrary points (record-less contacts included), datagrams delivered in any order / dropped / duplicated / delayed across timeouts, who-are-you queries and requests answered immediately, late or never, peers restarted, and (one fragment in 61) 52..99 requests to one peer whose datagrams are all lost, so that they all end in one go; each schedule ends with a drain (answering or silent network; time advanced by 2 x (retries+2) timeouts). Ledger per request id: at most one failure, at most k responses (k = NODES total), nothing after the terminal event; after the drain exactly one terminal outcome and no external request left in the handler; per session key a request is transmitted at most 1+retries times (datagrams decrypted with keys from probe snapshots); a Timeout is reported only if some request to that peer was outstanding for a full timeout without its answer(s) having been delivered. Non-trivial = >=2 unfinished requests from one node to one peer while a fault (drop, duplicate, restart, late answer, challenge during a live session) occurred.".into()
     }
     fn assumptions() -> Vec<String> {
         vec![
